@@ -2198,11 +2198,13 @@ func releasePendingReadIndexMessages(r *raft) {
 }
 
 func sendMsgReadIndexResponse(r *raft, m *pb.Message) {
-	// With only one voting member (the leader itself) there is nobody to
-	// confirm leadership with: answer from the local commit index. Callers have
+	// With only one voting member, and that member being this leader, there is
+	// nobody to confirm leadership with: answer from the local commit index. (A
+	// leader that was removed from a group which now has a single voter is not
+	// that voter; it must confirm with it like any other leader.) Callers have
 	// already made sure that an entry of the current term is committed, so the
 	// commit index is not a stale one loaded from storage by a new incarnation.
-	if r.trk.IsSingleton() {
+	if _, self := r.trk.Voters[0][r.id]; self && r.trk.IsSingleton() {
 		if resp := r.responseToReadIndexReq(m, r.raftLog.committed); resp.GetTo() != None {
 			r.send(resp)
 		}
